@@ -5,7 +5,8 @@
 2. WBXML half on the C (public conversion entry points, harness/c01_harness.c): for one source, the 16 option tuples
    {version 1.0..1.3} x {string table on, off} x {public id, anonymous} that agree on keep-ws must all be strict WBXML
    (vlib/strictdec.py, language forced) denoting the SAME infoset; the header carries the requested version, and for an
-   anonymous document the public id 0x01 and no id string; the conv-object API, the legacy `_withlen` API and the tree API
+   anonymous document the public id 0x01 and no id string (parsed header: empty table when the table is disabled; no
+   identifier entry that the body does not reference otherwise — the identifier may legitimately be content); the conv-object API, the legacy `_withlen` API and the tree API
    (harness/c06_harness.c) must give the same bytes for the same options (options are copied verbatim);
 3. XML half on the C: for one WBXML document, compact / indented (indent 0..255) / canonical generation parse (pyexpat) to the
    same infoset, exactly for elements without element children, modulo white space around markup otherwise;
@@ -32,11 +33,60 @@ def _decode(args):
     tj = _decode.tj
     try:
         doc, can = c07_lib.decode_canon(wb, tj, lid, c06_oracle.sub_lang_guess(tj))
-        return ("ok", doc.version, doc.pubid_num, doc.pubid_index, doc.pubid_str, can)
+        return ("ok", doc.version, doc.pubid_num, doc.pubid_index, doc.pubid_str, can, bytes(doc.strtbl), tuple(doc.refs))
     except strictdec.Strict as e:
         return ("strict", str(e))
     except RecursionError:
         return ("strict", "recursion limit of the oracle")
+
+
+def _entry_offsets(tbl, s):
+    """offsets of the string-table entries equal to s"""
+    out, p = [], 0
+    while p < len(tbl):
+        e = tbl.find(b"\0", p)
+        if e < 0:
+            break
+        if tbl[p:e] == s:
+            out.append(p)
+        p = e + 1
+    return out
+
+
+def _content_has(can, s):
+    """does a text / attribute value of the canonical infoset (nested tuples of str / bytes) contain s"""
+    if isinstance(can, str):
+        return s in can
+    if isinstance(can, (bytes, bytearray)):
+        return s.encode() in can
+    if isinstance(can, (tuple, list)):
+        return any(_content_has(c, s) for c in can)
+    return False
+
+
+def _anonymous_id_string(lang, o, tbl, refs, can, nonanon, nonanon_kind):
+    """Does the HEADER of an anonymous document carry a public-identifier string?  o = (version, strtbl, keep, anon).
+    - string table disabled: the only thing wbxml_fill_header could put into the table is the identifier, so the table
+      must be empty (C07_wbxml_anonymous_header with strtbl_len = 0);
+    - string table enabled: the table is the body's (anonymous_changes_header_only).  An entry equal to the identifier is
+      the header's, not the body's, when the body never references it and the decoded content does not contain it; and
+      against the non-anonymous output of the same options the table is the same (numeric identifier) or the same up to
+      the identifier appended by the non-anonymous header (string identifier)."""
+    pid = lang["pub_text"].encode() if lang["pub_text"] else None
+    if o[1] == 0:
+        return "string table of %d octets although the table is disabled" % len(tbl) if tbl else None
+    if pid:
+        for k in _entry_offsets(tbl, pid):
+            if k not in refs and not _content_has(can, lang["pub_text"]):
+                return "table entry at %d is the identifier; the body never references it and the content does not contain it" % k
+    if nonanon is not None and nonanon[0] == "ok":
+        ntbl = nonanon[6]
+        if nonanon_kind == "num":
+            if ntbl != tbl:
+                return "table differs from the non-anonymous output's (numeric identifier)"
+        elif pid and ntbl not in (tbl, tbl + pid + b"\0"):
+            return "table is not the non-anonymous output's minus the appended identifier"
+    return None
 
 
 def _init(tj):
@@ -184,7 +234,7 @@ def run(ctx):
                     violations.append({"what": "output-not-strict-wbxml", "source_xml_hex": x.hex(), "lang": L, "options": o, "why": r[1]})
                     agree = False
                     continue
-                _, ver, pnum, pidx, pstr, can = r
+                _, ver, pnum, pidx, pstr, can, tbl, refs = r
                 n_ok += 1
                 nontrivial.add((L, outs[(si, o)]))
                 if ver != o[0]:
@@ -193,8 +243,17 @@ def run(ctx):
                     if pnum != 1 or pidx is not None:
                         violations.append({"what": "anonymous-header", "source_xml_hex": x.hex(), "lang": L, "options": o,
                                            "public_id": pnum, "public_id_string": pstr})
-                    if lang["pub_text"] and o[1] == 0 and lang["pub_text"].encode() in outs[(si, o)][:len(lang["pub_text"]) + 12]:
-                        violations.append({"what": "anonymous-header-has-id-string", "source_xml_hex": x.hex(), "lang": L, "options": o})
+                    # "no public-identifier string": decided on the PARSED header (C07_wbxml_anonymous_header: version, 0x01,
+                    # charset, table length, table), never on a textual search of the output — the identifier is legitimate
+                    # CONTENT (c06_gen.pubid_docs writes it as element text, inline or through the table).
+                    why = _anonymous_id_string(lang, o, tbl, refs, can, decs.get((si, (o[0], o[1], o[2], 0))),
+                                               c06_oracle.expected_header(tj, L, o[0], False)[0])
+                    if why:
+                        violations.append({"what": "anonymous-header-has-id-string", "source_xml_hex": x.hex(), "lang": L, "options": o,
+                                           "why": why, "string_table": tbl.hex()})
+                    bump("anonymous headers examined (string table %s)" % ("on" if o[1] else "off"))
+                    if lang["pub_text"] and _entry_offsets(tbl, lang["pub_text"].encode()):
+                        bump("anonymous documents whose table has an entry equal to the identifier (content)")
                 else:
                     kind_, val = c06_oracle.expected_header(tj, L, o[0], False)
                     if (kind_ == "num" and pnum != val) or (kind_ == "str" and pstr != val):
